@@ -182,5 +182,8 @@ ResCanon(r) ==
       [] r.rk = "set"  -> [rk |-> "set", s |-> { Canon(x) : x \in r.s }]
       [] r.rk = "val"  -> [rk |-> "val", v |-> CanonVal(r.v)]
       [] r.rk = "obj"  -> [rk |-> "obj", eq |-> r.eq, e |-> Canon(r.e)]
+      \* a numpy array up to the type of its items (int64 [5 6 7] vs float64 [5. 6. 7.])
+      [] r.rk = "arr"  -> [rk |-> "arr", shape |-> r.shape,
+                           items |-> [i \in 1..Len(r.items) |-> CanonVal(r.items[i])]]
       [] OTHER -> r
 =============================================================================
